@@ -73,6 +73,13 @@ func execute(h *run.H, tr *hist.Trace, draw func(w *hist.World, i int) (hist.Ste
 	if _, err := w.Init(); err != nil {
 		return &outcome{"init", "InitChain: " + err.Error()}, feats
 	}
+	// node-local mempool traffic is one more thing that differs between nodes: the last replica answers the checks
+	// a node's mempool issues around every block (the block's transactions as they arrive, the pool's other
+	// content), the others have an idle mempool
+	if n := len(w.R); n >= 2 {
+		w.R[n-1].Ambient = true
+		feats["replica-with-mempool-traffic"]++
+	}
 	for i := 1; i < len(w.R); i++ {
 		if d := sim.CompareInit(w.R[0].LastInit, w.R[i].LastInit); d != "" {
 			return &outcome{"init", fmt.Sprintf("replica %d vs 0: %s", i, d)}, feats
